@@ -4,11 +4,24 @@
    the input equals reading the whole input at once, for every state, amount, continuation and
    pair of flag words.  The lift to the whole automaton (T_sim, DESIGN.md 4.2) is open; the
    property is decided per explored stream by comparing EVERY single cut point, byte-wise
-   feeding and budget sweeps against each other (and the model). *)
-From Coq Require Import NArith List.
-From MZ.lib Require Import Mach.
+   feeding and budget sweeps against each other (and the model).
+   Proved in full for the sub-language of byte-aligned stored blocks (what level 0 emits), raw and
+   zlib-framed: HOWEVER the stream (followed by arbitrary further bytes) is cut into input slices -
+   empty slices included - one call per slice with HAS_MORE_INPUT on a flat buffer with a spare byte
+   ends with the same verdict (Done, or Adler32Mismatch iff the trailer is wrong), exactly the payload
+   delivered and exactly the stream's length consumed: the whole-automaton invariant for the states
+   Start .. DoneForever of the stored path, carried from call to call with the running check value.
+   And with output budgets as well (C07_stored_streams_any_schedule_partial): every call may also grant
+   an arbitrary output budget (zero included), unconsumed input being offered again; the caller's loop
+   over the model RETURNS (no panic value, no exhausted fuel: a decreasing measure through all states), and
+   after the last call of ANY such schedule the delivered bytes are exactly a prefix of the payload, the status is never a
+   failure, NeedsMoreInput only while input is still outstanding, and a final status only with the whole
+   payload delivered and exactly the stream consumed - no assumption on the size of the output buffer. *)
+From Coq Require Import NArith ZArith List Bool.
+From MZ.lib Require Import Arr Mach.
+From MZ.spec Require Import Adler Zlib.
 From MZ.model Require Import InflateCore.
-From MZ.proofs Require Import InflateResume.
+From MZ.proofs Require Import InflateResume StoredSpec InflateStoredChunks InflateStoredTotal.
 Import ListNotations.
 Local Open Scope N_scope.
 
@@ -28,3 +41,84 @@ Example C07_starves :
   | _ => False
   end.
 Proof. vm_compute. reflexivity. Qed.
+
+Theorem C07_stored_streams_any_input_split_partial :
+  (forall flags chunks last extra pieces o s total o' p',
+   has flags F_ZLIB = false -> has flags F_STOPBB = false -> has flags F_NONWRAP = true -> has flags F_MORE = true ->
+   chunks_ok chunks -> bytes_ok last -> N.of_nat (length last) <= 65535 ->
+   let data := concat chunks ++ last in
+   let stream := stored_stream chunks last in
+   concat pieces = stream ++ extra ->
+   N.of_nat (length data) < alen o -> alen o <= USIZE_MAX ->
+   feed flags dec_default o 0 pieces 0 = Ret (s, total, o', p') ->
+   s = Done /\ total = N.of_nat (length stream) /\ p' = N.of_nat (length data) /\ aget_list o' 0 p' = data) /\
+  (forall flags cmf flg A chunks last extra pieces o s total o' p',
+   has flags F_ZLIB = true -> has flags F_STOPBB = false -> has flags F_NONWRAP = true -> has flags F_MORE = true ->
+   cmf < 256 -> flg < 256 -> valid_header (Z.of_N cmf) (Z.of_N flg) = true -> A < 2 ^ 32 ->
+   chunks_ok chunks -> bytes_ok last -> N.of_nat (length last) <= 65535 ->
+   let data := concat chunks ++ last in
+   let stream := cmf :: flg :: stored_stream chunks last ++ be32 A in
+   concat pieces = stream ++ extra ->
+   N.of_nat (length data) < alen o -> alen o <= USIZE_MAX ->
+   feed flags dec_default o 0 pieces 0 = Ret (s, total, o', p') ->
+   s = (if has flags F_IGNORE || (adler32 1 data =? A) then Done else Adler32Mismatch) /\
+   total = N.of_nat (length stream) /\ p' = N.of_nat (length data) /\ aget_list o' 0 p' = data).
+Proof. split; [exact pieces_raw_stored_stream|exact pieces_zlib_stored_stream]. Qed.
+
+(* non-vacuity: a zlib stream of two stored blocks fed as single bytes with empty slices in between
+   (flags PARSE_ZLIB_HEADER | HAS_MORE_INPUT | NON_WRAPPING), three further bytes after it *)
+Example C07_byte_by_byte :
+  let data := [97; 98; 99; 100; 101] in
+  let stream := 120 :: 1 :: stored_stream [[97; 98; 99]] [100; 101] ++ be32 (adler32 1 data) in
+  let pieces := concat (map (fun b => [[b]; []]) (stream ++ [7; 7; 7])) in
+  match feed 7 dec_default (amake 6 0) 0 pieces 0 with
+  | Ret (s, total, o', p') => s = Done /\ total = 21 /\ p' = 5 /\ aget_list o' 0 5 = data
+  | _ => False
+  end.
+Proof. vm_compute. repeat split; reflexivity. Qed.
+
+Theorem C07_stored_streams_any_schedule_partial :
+  (forall flags chunks last extra sched later o,
+   has flags F_ZLIB = false -> has flags F_STOPBB = false -> has flags F_NONWRAP = true -> has flags F_MORE = true ->
+   chunks_ok chunks -> bytes_ok last -> N.of_nat (length last) <= 65535 ->
+   let data := concat chunks ++ last in
+   let stream := stored_stream chunks last in
+   concat (map fst sched) ++ later = stream ++ extra ->
+   alen o <= USIZE_MAX -> N.of_nat (length (concat (map fst sched))) < 2 ^ 57 ->
+   exists s total o' p',
+   feed2 flags dec_default o 0 [] sched 0 NeedsMoreInput = Ret (s, total, o', p') /\
+   p' <= N.of_nat (length data) /\ aget_list o' 0 p' = firstn (N.to_nat p') data /\
+   total <= N.of_nat (length (concat (map fst sched))) /\
+   (s = HasMoreOutput \/ (s = NeedsMoreInput /\ later <> []) \/
+    (s = Done /\ p' = N.of_nat (length data) /\ total = N.of_nat (length stream)))) /\
+  (forall flags cmf flg A chunks last extra sched later o,
+   has flags F_ZLIB = true -> has flags F_STOPBB = false -> has flags F_NONWRAP = true -> has flags F_MORE = true ->
+   cmf < 256 -> flg < 256 -> valid_header (Z.of_N cmf) (Z.of_N flg) = true -> A < 2 ^ 32 ->
+   chunks_ok chunks -> bytes_ok last -> N.of_nat (length last) <= 65535 ->
+   let data := concat chunks ++ last in
+   let stream := cmf :: flg :: stored_stream chunks last ++ be32 A in
+   concat (map fst sched) ++ later = stream ++ extra ->
+   alen o <= USIZE_MAX -> N.of_nat (length (concat (map fst sched))) < 2 ^ 57 ->
+   exists s total o' p',
+   feed2 flags dec_default o 0 [] sched 0 NeedsMoreInput = Ret (s, total, o', p') /\
+   p' <= N.of_nat (length data) /\ aget_list o' 0 p' = firstn (N.to_nat p') data /\
+   total <= N.of_nat (length (concat (map fst sched))) /\
+   (s = HasMoreOutput \/ (s = NeedsMoreInput /\ later <> []) \/
+    (s = (if has flags F_IGNORE || (adler32 1 data =? A) then Done else Adler32Mismatch) /\
+     p' = N.of_nat (length data) /\ total = N.of_nat (length stream)))).
+Proof. split; [exact schedule_raw_stored_stream|exact schedule_zlib_stored_stream]. Qed.
+
+(* non-vacuity: the zlib stream above, two bytes of input and at most one byte of output per call, then
+   calls with no new input until the decoder is done; and the same schedule cut short *)
+Example C07_two_in_one_out :
+  let data := [97; 98; 99; 100; 101] in
+  let stream := 120 :: 1 :: stored_stream [[97; 98; 99]] [100; 101] ++ be32 (adler32 1 data) in
+  let sched := map (fun i => (firstn 2 (skipn (2 * i) stream), 1)) (seq 0 11) ++ repeat ([], 1) 6 in
+  match feed2 7 dec_default (amake 5 0) 0 [] sched 0 NeedsMoreInput,
+        feed2 7 dec_default (amake 5 0) 0 [] (firstn 6 sched) 0 NeedsMoreInput with
+  | Ret (s, total, o', p'), Ret (s2, total2, o2, p2) =>
+      s = Done /\ total = 21 /\ p' = 5 /\ aget_list o' 0 5 = data /\
+      s2 = HasMoreOutput /\ p2 = 3 /\ aget_list o2 0 3 = [97; 98; 99]
+  | _, _ => False
+  end.
+Proof. vm_compute. repeat split; reflexivity. Qed.
